@@ -98,7 +98,10 @@ def run(ctx):
     rc = fx.body("clap_builder::parser::parser::Parser::react")
     ti = rc.locals_named("trailing_idx")
     splits = rc.calls_to(r"OsStrExt>?::split$")
-    res.floor("R5.4", "delimiter split in react", len(splits), 1)
+    if not splits and rc.calls_to(r"Arg::get_value_delimiter$"):
+        res.note("R5.4: react reads the value delimiter but does not call OsStrExt::split (reported by C02 R2.4 split-pieces-all-kept); the threshold rule has nothing to look at")
+    else:
+        res.floor("R5.4", "delimiter split in react", len(splits), 1)
     # comparisons that involve trailing_idx
     cmps = []
     for c in rc.calls():
